@@ -42,7 +42,8 @@ def run(ctx):
     ctx.rule = ("generated well-formed requests / responses (9 methods, 6 url shapes, 0-4 header lines with 5 "
                 "colon styles, latin-1 values, CRLF or bare LF per line; no body | Content-Length | chunked "
                 "with extensions + trailers | until close; 100-continue prefix, HEAD, 204/304; pipelined "
-                "leftover) x splits: every split into <= 3 pieces of short messages, random splits (<= 6 "
+                "leftover) x splits: every split into <= 3 pieces of short messages + every proper prefix of "
+                "them in one receive (intermediate parser configuration), random splits (<= 6 "
                 "pieces) of longer ones; plus python-primitive cases (int(), strip, split, lower) exhaustive "
                 "on short strings.  non-trivial = >= 2 pieces; distinct by (kind, pieces)")
     ctx.assumptions = [
@@ -52,30 +53,36 @@ def run(ctx):
         "as an oracle (mkcfg bad_urls) and compares the raw url only",
         "Content-Length values have fewer than 4300 digits as python requires; model enforces the same",
     ]
+    import time
+    t0 = time.time()
     res = ctx.coq_build("C29/Props.v")
+    ctx.extra["t_build_s"] = round(time.time() - t0, 1)
+    t0 = time.time()
     rng = ctx.rng
     cases, metas = [], []
     defs = []
     msgs = []
     pool = H.LitPool("obs")
 
-    def add(m, pieces, kind, dref=None):
-        flat, view = H.http_impl(m.kind, pieces, m.headreq, m.close)
+    def add(m, pieces, kind, dref=None, full=True):
+        flat, view = H.http_impl(m.kind, pieces, m.headreq, m.close and full)
         ctx.case({"kind": m.kind, "pieces": [p.decode("latin-1") for p in pieces], "close": m.close,
                   "head": m.headreq, "obs": view}, nontrivial=len(pieces) >= 2,
                  kind="%s/%s/%s" % (kind, m.kind, m.framing))
         if dref is None:
-            expr = H.http_model_expr(m.kind, pieces, m.headreq, m.close)
+            expr = H.http_model_expr(m.kind, pieces, m.headreq, m.close and full)
         else:
             expr = "http_case_cuts (mkcfg 65536 100 %s) %s %s %s %s %s" % (
                 H.zll(H.bad_urls(m.data)), "true" if m.kind == "resp" else "false",
-                "true" if m.headreq else "false", "true" if m.close else "false", dref,
+                "true" if m.headreq else "false", "true" if (m.close and full) else "false", dref,
                 H.zl([len(p) for p in pieces[:-1]]))
         cases.append((expr, pool.ref(flat) if dref is not None else H.zl(flat)))
-        metas.append((m, pieces, view))
+        metas.append((m, pieces, view, full))
 
-    # (a) exhaustive <= 3-piece splits of short messages
-    want, tries = ctx.n(6, 40), 0
+    # (a) exhaustive <= 3-piece splits of short messages (only body-less ones fit in 40 bytes) and of
+    #     framed ones (Content-Length / chunked / close, <= 90 bytes): there every 2-piece split and
+    #     every 3-piece split whose cuts lie in the last 30 bytes (the body region)
+    want, tries = ctx.n(3, 20), 0
     seen_fr = {}
     while len(msgs) < want and tries < 5000:
         tries += 1
@@ -88,12 +95,35 @@ def run(ctx):
             continue
         seen_fr[key] = seen_fr.get(key, 0) + 1
         msgs.append(m)
+    nshort = len(msgs)
+    needs = [("req", "chunked"), ("resp", "chunked"), ("req", "length"), ("resp", "close")] * ctx.n(1, 5)
+    tries = 0
+    while needs and tries < 20000:
+        tries += 1
+        kind, fr = needs[0]
+        m = gen_msg(rng, kind, small=True)
+        if m.framing != fr or len(m.data) > 90 or len(m.body) < 3 or m.headreq or m.prefix:
+            continue
+        if kind == "resp" and m.status in (204, 304, 101):
+            continue
+        needs.pop(0)
+        msgs.append(m)
     for i, m in enumerate(msgs):
         defs.append("Definition d_%d : list Z := %s." % (i, H.zl(m.data)))
-        for pieces in H.splits_upto3(m.data):
+        if i < nshort:
+            sps = H.splits_upto3(m.data)
+        else:
+            n = len(m.data)
+            sps = H.splits_upto3(m.data, 2) + [[m.data[:a], m.data[a:b], m.data[b:]]
+                                               for a in range(max(1, n - 30), n) for b in range(a + 1, n)]
+        for pieces in sps:
             add(m, pieces, "exhaustive", "d_%d" % i)
+        # every proper prefix in one receive: the parser's INTERMEDIATE configuration (stage, fields so
+        # far, unconsumed bytes) -- by split independence these are the states between the pieces above
+        for j in range(len(m.data)):
+            add(m, [m.data[:j]], "prefix-state", full=False)
     # (b) random splits of longer messages
-    for _ in range(ctx.n(400, 8000)):
+    for _ in range(ctx.n(800, 8000)):
         m = gen_msg(rng, rng.choice(["req", "resp"]))
         msgs.append(m)
         add(m, H.random_split(rng, m.data, 6), "random")
@@ -129,23 +159,28 @@ def run(ctx):
     for _ in prim + sprim:
         ctx.case(None, nontrivial=False, kind="python-primitive")
 
-    bad = ctx.coq_cases(H.HEADER + "\n".join(defs) + "\n" + pool.defs(), "beq", cases, name="c29")
-    badp = ctx.coq_cases(header2, "oz_eqb", prim, name="c29int")
-    bads = ctx.coq_cases(H.HEADER, "beq", sprim, name="c29str")
+    ctx.extra["t_impl_s"] = round(time.time() - t0, 1)
+    t0 = time.time()
+    bad = ctx.coq_cases(H.HEADER + "\n".join(defs) + "\n" + pool.defs(), "beq", cases, name="c29", shard=800)
+    badp = ctx.coq_cases(header2, "oz_eqb", prim, name="c29int", shard=1000)
+    bads = ctx.coq_cases(H.HEADER, "beq", sprim, name="c29str", shard=1000)
     for i in bad[:5]:
-        m, pieces, view = metas[i]
+        m, pieces, view, _ = metas[i]
         ctx.tie_broken("correspondence", "C29 model vs %s" % ("Requestant" if m.kind == "req" else "Respondent"),
                        "pieces=%r close=%r head=%r impl=%r" % (pieces, m.close, m.headreq, view))
     for i in badp[:3]:
         ctx.tie_broken("correspondence", "py_int model vs python int()", "%s expected %s" % prim[i])
     for i in bads[:3]:
         ctx.tie_broken("correspondence", "string primitive model vs python", "%s expected %s" % sprim[i])
+    ctx.extra["t_coq_cases_s"] = round(time.time() - t0, 1)
     ctx.extra["mismatches"] = len(bad) + len(badp) + len(bads)
     ctx.exhaustive = False
 
     def search():
         best = None
-        for m, pieces, _ in metas:
+        for m, pieces, _, full in metas:
+            if not full:
+                continue
             why, view = prop_holds(m, pieces)
             if why is None:
                 continue
